@@ -268,6 +268,11 @@ class Method:
 
 def translate(cfg):
     mod = ast.parse((REPO / cfg["src"]).read_text())
+    try:
+        import guard
+        guard.check(cfg["src"].split("anyio/", 1)[1], mod, [cfg["cls"]])
+    except guard.GuardError as e:
+        raise Refuse(str(e))
     classes = [n for n in mod.body if isinstance(n, ast.ClassDef) and n.name == cfg["cls"]]
     if len(classes) != 1:
         raise Refuse(f"expected exactly one class {cfg['cls']} in {cfg['src']}, found {len(classes)}")
